@@ -35,7 +35,7 @@ ASSUMPTIONS = [
 
 def configs(ctx):
     c = [
-        {"name": "sqlite/main", "backend": "sqlite", "alphabet": (ALPHA_SQLITE + ("clock+1", "clock+9")) if ctx.thorough else tuple(o for o in ALPHA_SQLITE if o not in QUICK_DROPS), "cap_s": 900 if ctx.thorough else 240},
+        {"name": "sqlite/main", "backend": "sqlite", "alphabet": (ALPHA_SQLITE + ("clock+1", "clock+9")) if ctx.thorough else tuple(o for o in ALPHA_SQLITE if o not in QUICK_DROPS), "cap_s": 3600 if ctx.thorough else 1800},
         {"name": "sqlite/deletes", "backend": "sqlite", "alphabet": ("del", "ins1", "get", "delx"), "seed_events": 70, "max_states": 6000},
         # bucket-level operations on BIG buckets: delete_bucket / update_bucket of a bucket holding
         # 999 / 1000 / 1001 / 2300 events, crash image at every statement (seeded: events deleted in
